@@ -550,12 +550,73 @@ package kapacitor
 
 // The ring buffer operations are assumed here (trusted); see DESIGN §13 for why purge's
 // dead-slot argument was not brought under contract.
+// Live region of the time buffer: linear [start,stop) while the slice is still being extended or
+// not wrapped, or wrapped [start,len) ++ [0,stop) once len == cap.
+//@ spec wtView(b *windowTimeBuffer, i int) edge.PointMessage = b.window[qidx(b.start, i, len(b.window))]
+//@ spec wtOK(b *windowTimeBuffer) bool = b != nil && 0 <= b.start && b.start <= len(b.window) && 0 <= b.stop && b.stop <= len(b.window)
+//@     && 0 <= b.size && b.size <= len(b.window)
+//@     && ((b.start <= b.stop && b.size == b.stop - b.start)
+//@         || (len(b.window) == cap(b.window) && b.stop <= b.start && b.size == len(b.window) - b.start + b.stop && b.size > 0))
+//@     && (forall k int :: 0 <= k && k < len(b.window) ==> b.window[k] != nil)
+
+// insert appends the point to the live region (growing or wrapping as needed); nothing already
+// buffered is lost, duplicated or reordered.
 //@ func (*windowTimeBuffer).insert
-//@   trusted
-//@   modifies object(b)
+//@   props C03
+//@   requires wtOK(b) && p != nil
+//@   modifies b.window, b.start, b.stop, b.size, elems(b.window)
+//@   ensures wtOK(b) && b.size == old(b.size) + 1
+//@   ensures wtView(b, old(b.size)) == p
+//@   ensures forall i int :: 0 <= i && i < old(b.size) ==> wtView(b, i) == old(wtView(b, i))
+// Dead slots (inside the slice, outside the live region) only hold points that every later purge
+// would drop anyway: their time is below (inclusive mode) or at most (exclusive mode) the low-water
+// mark of the last purge -- the fact purge silently relies on when it peeks at window[len-1] and
+// rescans from 0. Specification-only fields: the low-water mark and the buffer's purge mode.
+//@ ghost (github.com/influxdata/kapacitor.windowTimeBuffer) lowWater time.Time
+//@ ghost (github.com/influxdata/kapacitor.windowTimeBuffer) incl bool
+//@ spec wtOld(b *windowTimeBuffer, t time.Time, lw time.Time) bool = ite(gf(b, incl, bool), t < lw, t <= lw)
+//@ spec wtDeadSlot(b *windowTimeBuffer, k int) bool = 0 <= k && k < len(b.window)
+//@     && ite(b.start <= b.stop && b.size == b.stop - b.start, k < b.start || k >= b.stop, b.stop <= k && k < b.start)
+//@ spec wtDead(b *windowTimeBuffer) bool = forall k int :: wtDeadSlot(b, k) ==> wtOld(b, b.window[k].Time(), gf(b, lowWater, time.Time))
+//@ spec wtSorted(b *windowTimeBuffer) bool = forall i int, j int :: 0 <= i && i < j && j < b.size ==> wtView(b, i).Time() <= wtView(b, j).Time()
+
+// The predicate purge keeps points by.
+//@ func (*windowTimeBuffer).purge$1
+//@   props C03
+//@   pure
+//@   ensures result == ite(inclusive, !(t < oldest), t > oldest)
+
+//@ spec wtKeep(t time.Time, oldest time.Time, inclusive bool) bool = ite(inclusive, !(t < oldest), t > oldest)
+
+// purge drops the longest prefix of the live region whose points are not kept; what remains is a
+// suffix of what was there, in order, and its first point (if any) is kept. The dead-slot fact
+// is re-established for the new low-water mark.
 //@ func (*windowTimeBuffer).purge
-//@   trusted
-//@   modifies object(b)
+//@   props C03
+//@   requires wtOK(b) && wtDead(b) && wtSorted(b) && inclusive == gf(b, incl, bool) && oldest >= gf(b, lowWater, time.Time)
+//@   modifies b.start, b.size, gf(b, lowWater, time.Time)
+//@   ghostset gf(b, lowWater, time.Time) := oldest
+//@   opt split=5
+//@   ensures wtOK(b) && gf(b, lowWater, time.Time) == oldest
+//@   ensures 0 <= b.size && b.size <= old(b.size)
+//@   ensures forall i int :: 0 <= i && i < b.size ==> wtView(b, i) == old(wtView(b, i + (b.size - now(b.size))))
+//@   ensures forall i int :: 0 <= i && i < old(b.size) - b.size ==> !wtKeep(old(wtView(b, i)).Time(), oldest, inclusive)
+//@   ensures b.size > 0 ==> wtKeep(wtView(b, 0).Time(), oldest, inclusive)
+//@   ensures wtSorted(b)
+//@   ensures wtDead(b)
+//@   loop 1
+//@     modifies b.start
+//@     invariant before(b.start) <= b.start && b.start <= b.stop
+//@     invariant forall k int :: before(b.start) <= k && k < b.start ==> !wtKeep(b.window[k].Time(), oldest, inclusive)
+//@   loop 2
+//@     modifies b.start
+//@     invariant before(b.start) <= b.start && b.start <= l && l == len(b.window) && wtKeep(b.window[l-1].Time(), oldest, inclusive)
+//@     invariant forall k int :: before(b.start) <= k && k < b.start ==> !wtKeep(b.window[k].Time(), oldest, inclusive)
+//@   loop 3
+//@     modifies b.start
+//@     invariant 0 <= b.start && b.start <= b.stop && l == len(b.window) && !wtKeep(b.window[l-1].Time(), oldest, inclusive)
+//@     invariant forall k int :: 0 <= k && k < b.start ==> !wtKeep(b.window[k].Time(), oldest, inclusive)
+
 //@ func (*windowByTime).batch
 //@   trusted
 //@   modifies nothing
@@ -566,8 +627,8 @@ package kapacitor
 // when and with which bounds the buffer is purged and the batch cut.
 //@ func (*windowByTime).Point
 //@   props C03
-//@   requires w != nil && w.buf != nil && p != nil && w.every >= 0
-//@   ensures err == nil && called(insert)
+//@   requires w != nil && wtOK(w.buf) && p != nil && w.every >= 0
+//@   ensures err == nil && called(insert) && wtOK(w.buf)
 //@   ensures (msg != nil) <==> (p.Time() >= old(w.nextEmit))
 //@   ensures called(purge) <==> (p.Time() >= old(w.nextEmit))
 //@   ensures called(batch) <==> (p.Time() >= old(w.nextEmit))
@@ -578,3 +639,23 @@ package kapacitor
 //@   ensures w.every == 0 && p.Time() >= old(w.nextEmit) ==>
 //@       callarg(purge, 0) == p.Time() - time.Time(w.period) && !callarg(purge, 1) && callarg(batch, 0) == p.Time() && w.nextEmit == p.Time()
 //@   ensures p.Time() < old(w.nextEmit) ==> w.nextEmit == old(w.nextEmit)
+
+// points copies the live region out, oldest first, as batch points.
+//@ func (*windowTimeBuffer).points
+//@   props C03
+//@   requires wtOK(b)
+//@   modifies nothing
+//@   ensures len(result) == b.size
+//@   ensures forall i int :: 0 <= i && i < b.size ==> result[i] == edge.BatchPointFromPoint(wtView(b, i))
+//@   loop 1
+//@     modifies elems(points)
+//@     invariant 0 <= _i && _i <= b.stop - b.start && len(points) == b.size && samearray(points, before(points)) && b.stop > b.start
+//@     invariant forall k int :: 0 <= k && k < _i ==> points[k] == edge.BatchPointFromPoint(wtView(b, k))
+//@   loop 2
+//@     modifies elems(points)
+//@     invariant b.start <= i && i <= l && l == len(b.window) && j == i - b.start && len(points) == b.size && samearray(points, before(points)) && b.stop <= b.start
+//@     invariant forall k int :: 0 <= k && k < j ==> points[k] == edge.BatchPointFromPoint(wtView(b, k))
+//@   loop 3
+//@     modifies elems(points)
+//@     invariant 0 <= i && i <= b.stop && l == len(b.window) && j == l - b.start + i && len(points) == b.size && samearray(points, before(points)) && b.stop <= b.start
+//@     invariant forall k int :: 0 <= k && k < j ==> points[k] == edge.BatchPointFromPoint(wtView(b, k))
